@@ -15,7 +15,7 @@ def lrEdges (T : LRTables) : List (Nat × Sym × Nat) :=
     (row.gotos.map fun (a, s') => (s, Sym.n a, s'))
 
 /-- Accessing symbol of a state: the symbol of the first transition into it. -/
-def accOf (T : LRTables) (q : Nat) : Option Sym :=
+def lrAccOf (T : LRTables) (q : Nat) : Option Sym :=
   ((lrEdges T).find? (fun e => e.2.2 == q)).map (·.2.1)
 
 def preds (T : LRTables) (q : Nat) : List Nat :=
@@ -23,13 +23,13 @@ def preds (T : LRTables) (q : Nat) : List Nat :=
 
 /-- Every transition into a state carries that state's accessing symbol. -/
 def accConsistent (T : LRTables) : Bool :=
-  (lrEdges T).all fun e => accOf T e.2.2 == some e.2.1
+  (lrEdges T).all fun e => lrAccOf T e.2.2 == some e.2.1
 
 /-- Every backward path from `q` spells `rr` (the right-hand side REVERSED), and the states reached
     after walking it all satisfy `final`. -/
 def backSpells (T : LRTables) (final : Nat → Bool) : Nat → List Sym → Bool
   | q, [] => final q
-  | q, X :: rest => accOf T q == some X && (preds T q).all (fun s => backSpells T final s rest)
+  | q, X :: rest => lrAccOf T q == some X && (preds T q).all (fun s => backSpells T final s rest)
 
 /-- Table validity relative to the productions with their symbols (`gprods`, index-aligned with the
     runtime production table): lengths and left-hand sides agree; accessing symbols are consistent;
